@@ -148,6 +148,9 @@ func newStore(name, path string, option StoreOption) (s Store, err error) {
 				kvLogger.Error("close store err when create store fail",
 					logger.String("store", path), logger.Error(err), logger.Error(err2))
 			}
+			// NOTE: cannot delete obsolete files when init err(like recover failure), because the versions aren't recovered
+			// completely, will delete the live manifest/sst files.
+			return
 		}
 
 		// finally, try delete obsolete files
